@@ -11,6 +11,7 @@ import (
 	"encoding/json"
 	"fmt"
 	"os"
+	"reflect"
 	"os/exec"
 	"runtime"
 	"strconv"
@@ -359,9 +360,16 @@ func TestRaceC02(t *testing.T) {
 		hc := make(chan int64, capacity)
 		nS, nR := 2+next(6), 1+next(4)
 		ctx, cancel := context.WithCancel(context.Background())
-		if next(3) == 0 {
+		ownDeadline := false
+		switch next(4) {
+		case 0:
 			// a context with a deadline far away, cancelled early
 			ctx, cancel = context.WithTimeout(context.Background(), time.Hour)
+		case 1:
+			// a context that ends by its OWN deadline, a moment from now, while every time budget the host can set on
+			// the interpreter is far away: the host's context ended, so the error is "execution interrupted"
+			ctx, cancel = context.WithTimeout(context.Background(), time.Duration(200+next(2000))*time.Microsecond)
+			ownDeadline = true
 		}
 		type res struct {
 			src string
@@ -372,7 +380,11 @@ func TestRaceC02(t *testing.T) {
 			e := env.NewEnv()
 			e.Define("hc", hc)
 			go func() {
-				_, err := vm.ExecuteContext(ctx, e, &vm.Options{Debug: false}, src)
+				opts := &vm.Options{Debug: false}
+				if ownDeadline {
+					farBudgets(opts)
+				}
+				_, err := vm.ExecuteContext(ctx, e, opts, src)
 				done <- res{src, err}
 			}()
 		}
@@ -382,7 +394,11 @@ func TestRaceC02(t *testing.T) {
 		for i := 0; i < nR; i++ {
 			start(recvForms[next(len(recvForms))])
 		}
-		time.Sleep(time.Duration(next(2000)) * time.Microsecond)
+		if ownDeadline {
+			<-ctx.Done()
+		} else {
+			time.Sleep(time.Duration(next(2000)) * time.Microsecond)
+		}
 		cancel()
 		deadline := time.After(30 * time.Second)
 		for got := 0; got < nS+nR; got++ {
@@ -400,6 +416,17 @@ func TestRaceC02(t *testing.T) {
 		rounds++
 	}
 	report(map[string]any{"rounds": rounds, "seconds": d.Seconds(), "deep_unwinds": unwinds})
+}
+
+// farBudgets sets every time.Duration field an Options value has (none on the pinned tree) to one hour: whatever time
+// budget the interpreter offers its host is configured, and far away.
+func farBudgets(o *vm.Options) {
+	v := reflect.ValueOf(o).Elem()
+	for i := 0; i < v.NumField(); i++ {
+		if f := v.Field(i); f.CanSet() && f.Type() == reflect.TypeOf(time.Duration(0)) {
+			f.SetInt(int64(time.Hour))
+		}
+	}
 }
 
 func cpuTime() time.Duration {
